@@ -11,7 +11,7 @@ RULE = ("grid = {±2^k, ±2^k±1 : k in 0..64} ∪ every integer constant in fit
         "crossed; a point is non-trivial when it lies in the property's domain (-2^63 <= min <= 0, min <= max < 2^64, "
         "negative min => max < 2^63); distinct = distinct (max, min) pairs; plus the three call sites named by the property: "
         "INDX coordinate word size for boundary coordinates in any key/axis or in the common value (must be the narrowest "
-        "sufficient width), default dtype of to_array for boundary and negative values - also asked again after the index was changed in place (set / delete item, union / difference update, update, shift_common(v), append) so that another width or signedness is needed -, collapsed with boundary precedence values")
+        "sufficient width), default dtype of to_array for boundary and negative values - also asked again after the index was changed in place (set / delete item, union / difference update, update, shift_common(v), append) so that another width or signedness is needed -, collapsed with boundary precedence values and over 127..300 columns (its per-row column counter)")
 TRUSTED = ["translator output Gen/FitDtype.lean is cross-checked against the real fit_dtype on the whole grid"]
 ASSUMPTIONS = ["numpy.dtype(<inttype>) denotes the usual two's-complement range of that width"]
 
@@ -227,6 +227,34 @@ def call_sites(ctx):
                             cls="C19-site-collapsed")
 
 
+def wide_collapse(ctx):
+    """collapsed() over many columns: its per-row column counter has to hold the number of columns (127/128, 255/256,
+    300), whatever the precedence values look like (signed, unsigned, wide)"""
+    import numpy as np
+    import gen_cube as G
+    for ncols in ([127, 128, 200, 255, 256, 300] if ctx.scale == 1 else [127, 128, 129, 200, 255, 256, 257, 300, 1000]):
+        for prec in ([1, 0, -1], [2, 1, 0], [1, 0, 2], [300, 1, 0], [0, 1, 2**40]):
+            N = 3
+            a = np.zeros((N, ncols), dtype=np.int64)
+            a[0, :] = prec[0]                      # a row made of the first listed value only
+            a[1, ctx.rng.randrange(ncols)] = prec[1] if prec[1] != 0 else prec[0]
+            common = ctx.rng.choice([0, prec[0]])
+            ix = G.make_index(a, common)
+            desc = {"site": "collapsed_wide", "columns": ncols, "precedence": prec, "common": int(common)}
+            ctx.case(desc)
+            ctx.hit("site:collapsed_wide")
+            try:
+                got = ix.collapsed(list(prec)).to_array(dtype=np.int64)
+            except Exception as e:
+                ctx.oracle_fail("collapsed over %d columns with precedence %s raised %s: %s" % (ncols, prec, type(e).__name__, str(e)[:60]),
+                                desc, cls="C19-site-collapsed")
+                continue
+            want = np.array([next((p for p in prec if p in set(row.tolist())), prec[-1]) for row in a], dtype=np.int64)
+            if not np.array_equal(got, want):
+                ctx.oracle_fail("collapsed over %d columns gives %s, expected %s (the column counter wrapped?)" % (
+                    ncols, got.tolist(), want.tolist()), desc, cls="C19-site-collapsed")
+
+
 def run(ctx):
     catii = core.load_catii()
     from catii.iindexes import fit_dtype
@@ -266,6 +294,7 @@ def run(ctx):
             ctx.oracle_fail(why + " (one-argument form)", {"max": mx, "impl": name}, cls="C19-wrong-dtype")
     ctx.exhaustive.append("all %d x %d grid points (powers of two ±1 and source constants ±1)" % (len(maxs), len(mins)))
     call_sites(ctx)
+    wide_collapse(ctx)
     if ctx.oracle_only:
         return
     ans = ctx.model.run(reqs)
